@@ -88,3 +88,8 @@ class C14(DiffCheck):
                 raise Violation("op#%d %s: channel rows differ with/without the duplicate (op#%s): %s"
                                 % (i, script[i], [d for d in dups if d <= i][-1], first_diff(x, y)), sig="C14 rows differ")
         return nt
+
+    def enumerate(self, tier, seed, stats):
+        from ..seqenum import enumerate_dups
+        cfg = {"usage": False, "blur": None, "allow_list": True}
+        return enumerate_dups(cfg, ["s1", "s2"] if tier == "quick" else ["s1", "s2", "s3"], 3, 8 if tier == "quick" else 16, stats)
